@@ -209,6 +209,8 @@ func menu() []udpx.Op {
 	// a datagram arriving at a client's source address from a host of the other address family,
 	// and a datagram on the client's live association that does not decrypt (the association stays)
 	m = append(m, udpx.Op{K: "R", C: 0, T: 2, N: 10}, udpx.Op{K: "S", C: 0, Key: 0, T: 1, N: 7, Mod: "flip"})
+	// a reply too large to be relayed (the association stays)
+	m = append(m, udpx.Op{K: "R", C: 0, T: 1, N: 65490})
 	m = append(m, udpx.Op{K: "A", D: 9 * time.Second}, udpx.Op{K: "A", D: 11 * time.Second})
 	return m
 }
@@ -293,6 +295,24 @@ func init() {
 			in := input{Timeout: 300 * time.Second, Ops: ops}
 			ctx.RunCase("nat-seq-dns", "Q", scenario("nat-seq-dns", in, true), in, nil)
 		}
+		// three datagrams of one client with gaps g1, g2 < timeout (every pair of whole seconds, and
+		// of half seconds in the thorough tier): one source, and a reply after the third is relayed
+		step := time.Second
+		if ctx.Tier == "thorough" {
+			step = 500 * time.Millisecond
+		}
+		var gidx int64
+		for g1 := step; g1 < 10*time.Second; g1 += step {
+			for g2 := step; g2 < 10*time.Second; g2 += step {
+				gidx++
+				if !ctx.Mine(gidx) {
+					continue
+				}
+				in := input{Timeout: 10 * time.Second, Ops: []udpx.Op{{K: "S", C: 0, Key: 0, T: 1, N: 20}, {K: "A", D: g1}, {K: "S", C: 0, Key: 0, T: 2, N: 8},
+					{K: "A", D: g2}, {K: "S", C: 0, Key: 0, T: 1, N: 12}, {K: "R", C: 0, T: 1, N: 16}}}
+				ctx.RunCase("nat-gaps", "Q", scenario("nat-gaps", in, true), in, nil)
+			}
+		}
 		bound := 3
 		if ctx.Tier == "thorough" {
 			bound = 5
@@ -302,7 +322,7 @@ func init() {
 		}
 	})
 	hk.Replayers["C04"] = func(ctx *engine.Ctx, rp engine.Replay) []*engine.Finding {
-		if rp.Unit == "nat-seq" || rp.Unit == "nat-seq-dns" {
+		if rp.Unit == "nat-seq" || rp.Unit == "nat-seq-dns" || rp.Unit == "nat-gaps" {
 			var in input
 			if err := json.Unmarshal(rp.Input, &in); err != nil {
 				return []*engine.Finding{{Sig: "BROKEN:bad-input", Msg: err.Error()}}
